@@ -130,6 +130,8 @@ type concState struct {
 	end      *PathEnd
 	endPanic *GoPanic
 	envTicks int
+	envEpoch int // EnvTicksEach grants: every environment channel may fire envEach times per grant
+	envEach  int
 }
 
 func (ip *Interp) where(g *GoR) string {
@@ -364,15 +366,36 @@ func (ip *Interp) complete(r *chanReg, val Value, ok bool, sendPanic bool) {
 	ip.unregister(g)
 }
 
+// envAvail: may this environment channel (ticker, time.After) fire now? Either the harness granted firings to every
+// timer (EnvTicksEach: time passes, each ticker fires) or there is something left in the shared pool (EnvTicks: which
+// timer gets a firing is the scheduler's choice).
+func (ip *Interp) envAvail(ch *ChanObj) bool {
+	if ch.envEp != ip.conc.envEpoch {
+		ch.envEp, ch.envOwn = ip.conc.envEpoch, ip.conc.envEach
+	}
+	return ch.envOwn > 0 || ip.conc.envTicks > 0
+}
+
+func (ip *Interp) envTake(ch *ChanObj) {
+	if ch.envEp != ip.conc.envEpoch {
+		ch.envEp, ch.envOwn = ip.conc.envEpoch, ip.conc.envEach
+	}
+	if ch.envOwn > 0 {
+		ch.envOwn--
+	} else {
+		ip.conc.envTicks--
+	}
+	ip.syncAcquire(ip.conc) // the firing was granted by the harness: its earlier actions happen before
+}
+
 // tryRecv attempts a non-blocking receive.
 func (ip *Interp) tryRecv(ch *ChanObj) (Value, bool, bool) {
 	if ch == nil {
 		return nil, false, false
 	}
 	if ch.env {
-		if ip.conc.envTicks > 0 {
-			ip.conc.envTicks--
-			ip.syncAcquire(ip.conc) // the firing was granted by the harness (EnvTicks): its earlier actions happen before
+		if ip.envAvail(ch) {
+			ip.envTake(ch)
 			return ip.zero(ch.elemT), true, true
 		}
 		return nil, false, false
@@ -412,7 +435,7 @@ func (ip *Interp) recvReady(ch *ChanObj) bool {
 		return false
 	}
 	if ch.env {
-		return ip.conc.envTicks > 0
+		return ip.envAvail(ch)
 	}
 	return len(ch.buf) > 0 || len(ch.sendq2) > 0 || ch.closed
 }
@@ -488,10 +511,9 @@ func (ip *Interp) chanRecv(ch *ChanObj) (Value, bool) {
 		ch.recvq2 = append(ch.recvq2, r)
 	}
 	isEnv := ch != nil && ch.env
-	ip.block(func() bool { return g.completed != nil || (isEnv && ip.conc.envTicks > 0) }, "chan receive")
+	ip.block(func() bool { return g.completed != nil || (isEnv && ip.envAvail(ch)) }, "chan receive")
 	if g.completed == nil {
-		ip.conc.envTicks--
-		ip.syncAcquire(ip.conc)
+		ip.envTake(ch)
 		return ip.zero(ch.elemT), true
 	}
 	ip.syncAcquire(ch)
@@ -597,12 +619,11 @@ func (ip *Interp) selectOp(fr *Frame, x *ssa.Select) Value {
 			a.ch.recvq2 = append(a.ch.recvq2, r)
 		}
 	}
-	ip.block(func() bool { return g.completed != nil || (envArm >= 0 && ip.conc.envTicks > 0) }, "select")
+	ip.block(func() bool { return g.completed != nil || (envArm >= 0 && ip.envAvail(arms[envArm].ch)) }, "select")
 	if g.completed == nil {
 		// woken by an environment event (ticker / time.After) that became available
 		ip.unregister(g)
-		ip.conc.envTicks--
-		ip.syncAcquire(ip.conc)
+		ip.envTake(arms[envArm].ch)
 		return result(envArm, ip.zero(arms[envArm].ch.elemT), true)
 	}
 	r := g.completed
